@@ -30,7 +30,7 @@ import (
 )
 
 type cop struct {
-	Op     string   `json:"op"` // With | SetLevel
+	Op     string   `json:"op"` // With | SetLevel | Child (ChildLogger: reads the shared holder once)
 	Fields []uint64 `json:"fields,omitempty"`
 	Level  int      `json:"level"`
 }
@@ -45,17 +45,29 @@ type initSpec struct {
 	Level  int      `json:"level"`
 	Fields []uint64 `json:"fields"`
 	Wrap   *int     `json:"wrap,omitempty"`
+	// Steps: the initial fields are collected one WithFields call at a time, with no Log call in
+	// between (the same initial logger, reached by another history)
+	Steps bool `json:"steps,omitempty"`
 }
 
 type ccase struct {
-	Kind   string   `json:"kind"`
-	Init   initSpec `json:"init"`
-	Progs  [][]cop  `json:"progs"`
-	Prefix []int    `json:"prefix,omitempty"` // replay input: schedule to follow first
-	Sched  []int    `json:"sched"`
-	Obs    []cobs   `json:"obs"`
-	Done   bool     `json:"done"`
-	Err    string   `json:"err,omitempty"`
+	Kind     string     `json:"kind"`
+	Init     initSpec   `json:"init"`
+	Progs    [][]cop    `json:"progs"`
+	Prefix   []int      `json:"prefix,omitempty"` // replay input: schedule to follow first
+	Sched    []int      `json:"sched"`
+	Obs      []cobs     `json:"obs"`
+	Done     bool       `json:"done"`
+	Children []childObs `json:"children"`
+	Err      string     `json:"err,omitempty"`
+}
+
+// childObs: the logger of a context created by ChildLogger during the run (operation Idx of
+// goroutine T), probed after the schedule; listed in the order of creation.
+type childObs struct {
+	T   int  `json:"t"`
+	Idx int  `json:"idx"`
+	Obs cobs `json:"obs"`
 }
 
 func zfield(k uint64) zap.Field { return zap.Int64(fmt.Sprintf("f%d", k%7), int64(k)) }
@@ -76,6 +88,7 @@ func fieldID(f zapcore.Field) uint64 {
 }
 
 var levels = []zapcore.Level{zapcore.DebugLevel, zapcore.InfoLevel, zapcore.WarnLevel, zapcore.ErrorLevel}
+var levelsZ = levels
 
 type otherKey struct{ n int }
 
@@ -92,6 +105,11 @@ func same(a, b []uint64) bool {
 }
 
 func probe(ctx context.Context, logs *observer.ObservedLogs) cobs {
+	// the probe runs on the controller's goroutine while the others are parked: whatever Log(ctx)
+	// does to the holder must not hand the baton to anybody
+	saved := log.VerifYield
+	log.VerifYield = nil
+	defer func() { log.VerifYield = saved }()
 	logs.TakeAll()
 	full := make([][][]uint64, len(levels))
 	var mask uint64
@@ -137,21 +155,29 @@ type picker func(step int, s *logsched.Sched, n int) int
 const maxSteps = 600
 
 // runCase replays: first the prefix, then whatever pick says, until all goroutines returned.
-func runCase(in initSpec, progs [][]cop, prefix []int, pick picker) (sched []int, obs []cobs, done bool, errs string) {
-	sched, obs, doneT, errs := runCaseX(in, progs, prefix, pick, true)
+func runCase(in initSpec, progs [][]cop, prefix []int, pick picker) (sched []int, obs []cobs, done bool, kids []childObs, errs string) {
+	sched, obs, doneT, kids, errs := runCaseX(in, progs, prefix, pick, true)
 	done = true
 	for _, d := range doneT {
 		done = done && d
 	}
-	return sched, obs, done && errs == "", errs
+	return sched, obs, done && errs == "", kids, errs
 }
 
 // runCaseX: pick == nil stops after the prefix; everyStep == false probes only at the end (one
 // entry in obs).  doneT tells which goroutines have returned.
-func runCaseX(in initSpec, progs [][]cop, prefix []int, pick picker, everyStep bool) (sched []int, obs []cobs, doneT []bool, errs string) {
+func runCaseX(in initSpec, progs [][]cop, prefix []int, pick picker, everyStep bool) (sched []int, obs []cobs, doneT []bool, kids []childObs, errs string) {
 	core, logs := observer.New(zapcore.Level(in.Level))
 	zap.ReplaceGlobals(zap.New(core))
-	base := log.InitLogger(context.TODO(), zfields(in.Fields)...)
+	var base context.Context
+	if in.Steps {
+		base = log.InitLogger(context.TODO())
+		for _, f := range in.Fields {
+			base = log.WithFields(base, zfield(f))
+		}
+	} else {
+		base = log.InitLogger(context.TODO(), zfields(in.Fields)...)
+	}
 	if in.Wrap != nil {
 		log.SetLevel(base, zapcore.Level(*in.Wrap))
 	}
@@ -166,19 +192,31 @@ func runCaseX(in initSpec, progs [][]cop, prefix []int, pick picker, everyStep b
 		}
 		return doneT
 	}
+	// children: appended by whichever goroutine holds the baton (one at a time), so in the
+	// order of the ChildLogger calls
+	type kid struct {
+		t, idx int
+		ctx    context.Context
+	}
+	var born []kid
+	kids = []childObs{}
 	for t := 0; t < n; t++ {
+		t := t
 		cx := context.WithValue(base, otherKey{t}, t) // a distinct context sharing the holder
 		p := progs[t]
 		if err := s.Start(t, func() {
-			for _, o := range p {
-				if o.Op == "With" {
+			for i, o := range p {
+				switch o.Op {
+				case "With":
 					log.WithFields(cx, zfields(o.Fields)...)
-				} else {
+				case "Child":
+					born = append(born, kid{t, i, log.ChildLogger(cx, zfields(o.Fields)...)})
+				default:
 					log.SetLevel(cx, zapcore.Level(o.Level))
 				}
 			}
 		}); err != nil {
-			return sched, obs, flags(), err.Error()
+			return sched, obs, flags(), kids, err.Error()
 		}
 	}
 	for step := 0; step < maxSteps; step++ {
@@ -192,7 +230,7 @@ func runCaseX(in initSpec, progs [][]cop, prefix []int, pick picker, everyStep b
 			t = pick(step, s, n)
 		}
 		if _, err := s.Step(t); err != nil {
-			return sched, obs, flags(), err.Error()
+			return sched, obs, flags(), kids, err.Error()
 		}
 		sched = append(sched, t)
 		if everyStep {
@@ -202,7 +240,10 @@ func runCaseX(in initSpec, progs [][]cop, prefix []int, pick picker, everyStep b
 	if !everyStep {
 		obs = []cobs{probe(base, logs)}
 	}
-	return sched, obs, flags(), ""
+	for _, k := range born {
+		kids = append(kids, childObs{k.t, k.idx, probe(k.ctx, logs)})
+	}
+	return sched, obs, flags(), kids, ""
 }
 
 func running(s *logsched.Sched, n int) []int {
@@ -241,10 +282,19 @@ func gObs(o cobs) string {
 	return "Irr " + gal.ListOf(o.Full, func(l [][]uint64) string { return gal.ListOf(l, gFields) })
 }
 func gCop(o cop) string {
-	if o.Op == "With" {
+	switch o.Op {
+	case "With":
 		return "CWith " + gFields(o.Fields)
+	case "Child":
+		return "CChild " + gFields(o.Fields)
 	}
 	return "CSetLevel " + gal.Z(int64(o.Level))
+}
+
+func gKids(ks []childObs) string {
+	return gal.ListOf(ks, func(k childObs) string {
+		return gal.Pair(gal.Pair(gal.Nat(k.T), gal.Nat(k.Idx)), gObs(k.Obs))
+	})
 }
 
 // schedErr: a goroutine neither yielded nor returned (it blocks on something the instrumenter
@@ -259,15 +309,16 @@ func emit(out *gal.Out, kind string, in initSpec, progs [][]cop, prefix []int, p
 		emitFinal(out, kind, in, progs, prefix, pick)
 		return
 	}
-	sched, obs, done, errs := runCase(in, progs, prefix, pick)
+	sched, obs, done, kids, errs := runCase(in, progs, prefix, pick)
 	if errs != "" {
 		schedErr = errs
 	}
 	t := "({| cc_init := " + gCore(in) + "; cc_progs := " +
 		gal.ListOf(progs, func(p []cop) string { return gal.ListOf(p, gCop) }) +
 		"; cc_sched := " + gal.ListOf(sched, func(t int) string { return fmt.Sprint(t) }) + "%nat" +
-		"; cc_obs := " + gal.ListOf(obs, gObs) + "; cc_done := " + gal.Bool(done) + " |})%N"
-	out.Case(t, ccase{Kind: kind, Init: in, Progs: progs, Prefix: prefix, Sched: sched, Obs: obs, Done: done, Err: errs})
+		"; cc_obs := " + gal.ListOf(obs, gObs) + "; cc_done := " + gal.Bool(done) +
+		"; cc_children := " + gKids(kids) + " |})%N"
+	out.Case(t, ccase{Kind: kind, Init: in, Progs: progs, Prefix: prefix, Sched: sched, Obs: obs, Done: done, Children: kids, Err: errs})
 }
 
 // emitFinal runs prefix + round-robin completion and writes a final-state case (sc_case): only
@@ -277,7 +328,7 @@ func emitFinal(out *gal.Out, kind string, in initSpec, progs [][]cop, prefix []i
 	if in.Fields == nil {
 		in.Fields = []uint64{}
 	}
-	sched, obs, doneT, errs := runCaseX(in, progs, prefix, pick, false)
+	sched, obs, doneT, kids, errs := runCaseX(in, progs, prefix, pick, false)
 	if errs != "" {
 		schedErr = errs
 	}
@@ -285,31 +336,40 @@ func emitFinal(out *gal.Out, kind string, in initSpec, progs [][]cop, prefix []i
 	for _, d := range doneT {
 		done = done && d
 	}
-	writeFinal(out, kind, in, progs, sched, obs[len(obs)-1], done, errs, 0)
+	writeFinal(out, kind, in, progs, sched, obs[len(obs)-1], kids, done, errs, 0)
 }
 
-func writeFinal(out *gal.Out, kind string, in initSpec, progs [][]cop, sched []int, fin cobs, done bool, errs string, explored int) {
+func writeFinal(out *gal.Out, kind string, in initSpec, progs [][]cop, sched []int, fin cobs, kids []childObs, done bool, errs string, explored int) {
+	if kids == nil {
+		kids = []childObs{}
+	}
 	t := "({| sc_init := " + gCore(in) + "; sc_progs := " +
 		gal.ListOf(progs, func(p []cop) string { return gal.ListOf(p, gCop) }) +
-		"; sc_final := " + gObs(fin) + " |})%N"
-	out.Case(t, fcase{Kind: kind, Judge: "final", Init: in, Progs: progs, Sched: sched, Final: fin, Done: done, Err: errs, Explored: explored})
+		"; sc_final := " + gObs(fin) + "; sc_children := " + gKids(kids) + " |})%N"
+	out.Case(t, fcase{Kind: kind, Judge: "final", Init: in, Progs: progs, Sched: sched, Final: fin, Children: kids, Done: done, Err: errs, Explored: explored})
 }
 
 type fcase struct {
-	Kind     string   `json:"kind"`
-	Judge    string   `json:"judge"`
-	Init     initSpec `json:"init"`
-	Progs    [][]cop  `json:"progs"`
-	Sched    []int    `json:"sched"`
-	Final    cobs     `json:"final"`
-	Done     bool     `json:"done"`
-	Err      string   `json:"err,omitempty"`
-	Explored int      `json:"explored"`
+	Kind     string     `json:"kind"`
+	Judge    string     `json:"judge"`
+	Init     initSpec   `json:"init"`
+	Progs    [][]cop    `json:"progs"`
+	Sched    []int      `json:"sched"`
+	Final    cobs       `json:"final"`
+	Children []childObs `json:"children"`
+	Done     bool       `json:"done"`
+	Err      string     `json:"err,omitempty"`
+	Explored int        `json:"explored"`
 }
 
 // suspicious mirrors final_ok of LogCtxJudge.v (the verdict itself is given by Coq): fields =
 // initial ++ a permutation of all added, level = that of a goroutine's last SetLevel.
-func suspicious(in initSpec, progs [][]cop, fin cobs) bool {
+func suspicious(in initSpec, progs [][]cop, fin cobs, kids []childObs) bool {
+	for _, k := range kids {
+		if suspiciousChild(in, progs, k) {
+			return true
+		}
+	}
 	if fin.Full != nil {
 		return true
 	}
@@ -319,12 +379,13 @@ func suspicious(in initSpec, progs [][]cop, fin cobs) bool {
 	for _, p := range progs {
 		last, has := 0, false
 		for _, o := range p {
-			if o.Op == "With" {
+			switch o.Op {
+			case "With":
 				for _, f := range o.Fields {
 					want[f]++
 					nadd++
 				}
-			} else {
+			case "SetLevel":
 				last, has = o.Level, true
 			}
 		}
@@ -348,6 +409,25 @@ func suspicious(in initSpec, progs [][]cop, fin cobs) bool {
 			return true
 		}
 	}
+	// the fields of one goroutine keep the order in which it added them
+	for _, p := range progs {
+		rest := fin.Fields[len(in.Fields):]
+		for _, o := range p {
+			if o.Op != "With" {
+				continue
+			}
+			for _, f := range o.Fields {
+				k := 0
+				for k < len(rest) && rest[k] != f {
+					k++
+				}
+				if k == len(rest) {
+					return true
+				}
+				rest = rest[k+1:]
+			}
+		}
+	}
 	for _, l := range lasts {
 		var m uint64
 		for i := range levels {
@@ -356,6 +436,69 @@ func suspicious(in initSpec, progs [][]cop, fin cobs) bool {
 			}
 		}
 		if m == fin.Mask {
+			return false
+		}
+	}
+	return true
+}
+
+// suspiciousChild mirrors child_ok of LogCtxJudge.v.
+func suspiciousChild(in initSpec, progs [][]cop, k childObs) bool {
+	if k.Obs.Full != nil || k.T >= len(progs) || k.Idx >= len(progs[k.T]) || progs[k.T][k.Idx].Op != "Child" {
+		return true
+	}
+	own := progs[k.T][k.Idx].Fields
+	fs := k.Obs.Fields
+	if len(fs) < len(in.Fields)+len(own) || !same(fs[:len(in.Fields)], in.Fields) || !same(fs[len(fs)-len(own):], own) {
+		return true
+	}
+	mid := map[uint64]int{}
+	for _, f := range fs[len(in.Fields) : len(fs)-len(own)] {
+		mid[f]++
+	}
+	added := map[uint64]int{}
+	levels := []int{in.Level}
+	if in.Wrap != nil {
+		levels = []int{*in.Wrap}
+	}
+	for _, p := range progs {
+		for _, o := range p {
+			switch o.Op {
+			case "With":
+				for _, f := range o.Fields {
+					added[f]++
+				}
+			case "SetLevel":
+				levels = append(levels, o.Level)
+			}
+		}
+	}
+	for f, c := range mid {
+		if c > added[f] {
+			return true
+		}
+	}
+	earlier := map[uint64]int{}
+	for _, o := range progs[k.T][:k.Idx] {
+		if o.Op == "With" {
+			for _, f := range o.Fields {
+				earlier[f]++
+			}
+		}
+	}
+	for f, c := range earlier {
+		if mid[f] < c {
+			return true
+		}
+	}
+	for _, l := range levels {
+		var m uint64
+		for i := range levelsZ {
+			if i-1 >= l {
+				m |= 1 << uint(i)
+			}
+		}
+		if m == k.Obs.Mask {
 			return false
 		}
 	}
@@ -371,6 +514,7 @@ func search(out *gal.Out, budget, keep int, limit time.Duration) {
 	timedOut := false
 	w := func(k uint64) cop { return cop{Op: "With", Fields: []uint64{k}} }
 	sl := func(l int) cop { return cop{Op: "SetLevel", Level: l} }
+	ch := func(k uint64) cop { return cop{Op: "Child", Fields: []uint64{k}} }
 	dbg := -1
 	inits := []initSpec{{Level: 0, Fields: []uint64{}}, {Level: 1, Fields: []uint64{9}, Wrap: &dbg}}
 	// smallest first: the four pairs of single calls (mixed pairs in both orders), then longer ones
@@ -379,17 +523,21 @@ func search(out *gal.Out, budget, keep int, limit time.Duration) {
 		{{w(1)}, {sl(2)}},
 		{{sl(2)}, {w(1)}},
 		{{sl(-1)}, {sl(2)}},
+		{{w(1)}, {ch(2)}},
+		{{w(1), ch(3)}, {w(2)}},
 		{{w(1), w(3)}, {w(2)}},
 		{{w(1)}, {w(2), sl(2)}},
 		{{sl(2), w(1)}, {w(2)}},
 		{{w(1), sl(1)}, {sl(2), w(2)}},
 		{{{Op: "With"}, w(1)}, {w(2)}},
+		{{sl(2), ch(3)}, {w(1), ch(4)}},
 	}
 	type hit struct {
 		in    initSpec
 		progs [][]cop
 		sched []int
 		fin   cobs
+		kids  []childObs
 	}
 	var hits []hit
 	var lastOK *hit
@@ -402,7 +550,7 @@ func search(out *gal.Out, budget, keep int, limit time.Duration) {
 					timedOut = true
 					return
 				}
-				sched, obs, doneT, errs := runCaseX(in, progs, prefix, nil, false)
+				sched, obs, doneT, kids, errs := runCaseX(in, progs, prefix, nil, false)
 				if errs != "" {
 					schedErr, timedOut = errs, true
 					return
@@ -413,8 +561,8 @@ func search(out *gal.Out, budget, keep int, limit time.Duration) {
 				}
 				if all {
 					explored++
-					h := hit{in, progs, append([]int(nil), sched...), obs[0]}
-					if suspicious(in, progs, obs[0]) {
+					h := hit{in, progs, append([]int(nil), sched...), obs[0], kids}
+					if suspicious(in, progs, obs[0], kids) {
 						hits = append(hits, h)
 					} else {
 						lastOK = &h
@@ -446,14 +594,14 @@ func search(out *gal.Out, budget, keep int, limit time.Duration) {
 		hits = hits[:keep]
 	}
 	for _, h := range hits {
-		writeFinal(out, "search", h.in, h.progs, h.sched, h.fin, true, "", explored)
+		writeFinal(out, "search", h.in, h.progs, h.sched, h.fin, h.kids, true, "", explored)
 	}
 	if len(hits) == 0 && lastOK != nil {
 		kind := "search-clean"
 		if timedOut {
 			kind = "search-timeout"
 		}
-		writeFinal(out, kind, lastOK.in, lastOK.progs, lastOK.sched, lastOK.fin, true, schedErr, explored)
+		writeFinal(out, kind, lastOK.in, lastOK.progs, lastOK.sched, lastOK.fin, lastOK.kids, true, schedErr, explored)
 	}
 }
 
@@ -483,10 +631,19 @@ func (g *gen) fields() []uint64 {
 
 func (g *gen) level() int { return g.r.IntN(4) - 1 }
 
+// accumulate (-accumulate): the shared logger starts from 0..8 fields collected one call at a time.
+var accumulate bool
+
 func (g *gen) progs() (initSpec, [][]cop) {
 	g.next = 1
 	in := initSpec{Level: g.level(), Fields: []uint64{}}
-	if g.r.IntN(2) == 0 {
+	if accumulate {
+		in.Steps = true
+		for k := g.r.IntN(9); k > 0; k-- {
+			in.Fields = append(in.Fields, g.next)
+			g.next++
+		}
+	} else if g.r.IntN(2) == 0 {
 		in.Fields = g.fields()
 	}
 	if g.r.IntN(3) == 0 {
@@ -498,9 +655,12 @@ func (g *gen) progs() (initSpec, [][]cop) {
 	for t := range progs {
 		k := 1 + g.r.IntN(3)
 		for i := 0; i < k; i++ {
-			if g.r.IntN(3) == 0 {
+			switch x := g.r.IntN(12); {
+			case x < 3:
 				progs[t] = append(progs[t], cop{Op: "SetLevel", Level: g.level()})
-			} else {
+			case x < 5:
+				progs[t] = append(progs[t], cop{Op: "Child", Fields: g.fields()})
+			default:
 				progs[t] = append(progs[t], cop{Op: "With", Fields: g.fields()})
 			}
 		}
@@ -548,6 +708,11 @@ func corpus(out *gal.Out) {
 	emit(out, "corpus", info, [][]cop{{w1(1)}, {{Op: "SetLevel", Level: -1}}}, []int{0, 1, 1, 0}, roundRobin)
 	// With() without fields stores the loaded pointer itself: the other CAS still succeeds
 	emit(out, "corpus", info, [][]cop{{{Op: "With"}}, {w1(1)}}, []int{0, 1, 0, 1}, roundRobin)
+	// ChildLogger between another goroutine's Load and CompareAndSwap, and after its own update
+	emit(out, "corpus", info, [][]cop{{w1(1), {Op: "Child", Fields: []uint64{3}}}, {w1(2), {Op: "Child"}}},
+		[]int{0, 1, 0, 0, 1, 1, 1}, roundRobin)
+	emit(out, "corpus", info, [][]cop{{{Op: "SetLevel", Level: 2}, {Op: "Child", Fields: []uint64{3}}}, {{Op: "Child", Fields: []uint64{4}}, w1(1)}},
+		[]int{0, 1, 1, 0, 1, 0}, roundRobin)
 	dbg := -1
 	emit(out, "corpus", initSpec{Level: 1, Fields: []uint64{9}, Wrap: &dbg},
 		[][]cop{{w1(1), {Op: "SetLevel", Level: 2}}, {w1(2)}, {{Op: "With"}, w1(3)}},
@@ -563,7 +728,9 @@ func main() {
 	final := flag.Bool("final", false, "replay: judge only the quiescent final state (sc_case terms)")
 	budget := flag.Int("budget", 12, "search: maximal schedule length")
 	limit := flag.Int("limit", 60, "search: time limit in seconds")
+	acc := flag.Bool("accumulate", false, "random: initial fields collected one WithFields call at a time")
 	flag.Parse()
+	accumulate = *acc
 	finalOnly = *final
 	out := gal.NewOut(*outp)
 	defer out.Close()
